@@ -76,12 +76,20 @@ def run(pid, tier, seed, replay=None):
     else:
       print('TOOL FAILURE: model driver does not build\n' + log_model[-3000:])
       return 2
-  obligations = list(prop.theorems) + list(prop.bridge)
+  # proof obligations: {module: [theorem names]}; `theorems` may be a plain list (all in lean_module)
+  groups = dict(prop.theorems) if isinstance(prop.theorems, dict) else {prop.lean_module: list(prop.theorems)}
+  if prop.bridge:
+    groups.setdefault('DK.Lemmas.Bridge', [])
+    groups['DK.Lemmas.Bridge'] = list(groups['DK.Lemmas.Bridge']) + list(prop.bridge)
+  modules = sorted(set(list(groups) + ([prop.lean_module] if prop.lean_module else [])))
+  obligations = [t for m in groups for t in groups[m]]
   discharged = 0
-  ok_proofs, log_proofs = C.lake_build([prop.lean_module])
+  ok_proofs, log_proofs = C.lake_build(modules)
   axioms = {}
   if ok_proofs:
-    axioms, raw = C.audit_axioms(prop.lean_module, obligations)
+    for m in groups:
+      ax, raw = C.audit_axioms(m, groups[m])
+      axioms.update(ax)
     for t in obligations:
       if t not in axioms:
         red.append(('theorem-missing', t, 'not found by #print axioms'))
@@ -96,6 +104,13 @@ def run(pid, tier, seed, replay=None):
       return 2
     for e in errs[:6]:
       red.append(('proof-obligation', e.split(':')[0] + ':' + e.split(':')[1], e))
+  if ok_proofs and tier == 'thorough' and not os.environ.get('VERIF_NO_LEANCHECKER'):
+    # independent re-check of the compiled modules by Lean's leanchecker
+    with C.LeanLock():
+      r = C.sh(['lake', 'env', 'leanchecker'] + modules, cwd=C.LEAN, timeout=3000)
+    info['leanchecker'] = {'modules': modules, 'exit': r.returncode, 'tail': ((r.stdout or '') + (r.stderr or ''))[-300:]}
+    if r.returncode != 0:
+      red.append(('leanchecker', ' '.join(modules), ((r.stdout or '') + (r.stderr or ''))[-300:]))
   forb = C.grep_forbidden()
   for f in forb:
     red.append(('forbidden-construct', f, 'sorry/admit/axiom/native_decide in the Lean sources'))
@@ -175,7 +190,7 @@ def run(pid, tier, seed, replay=None):
     'property_id': pid, 'tier': tier, 'seed': seed, 'level': 'proof',
     'coverage': {
       'obligations': max(1, len(obligations)), 'discharged': discharged,
-      'checker_cmd': 'cd lean && lake build %s && lake env lean <#print axioms of every listed theorem>' % prop.lean_module,
+      'checker_cmd': 'cd lean && lake build %s && lake env lean <#print axioms of every listed theorem>' % ' '.join(modules),
       'trusted_base': C.TRUSTED_BASE,
       'theorems': obligations, 'axioms': axioms,
       'evaluations': len(cases), 'distinct_nontrivial': len(distinct), 'rule': prop.rule,
